@@ -800,6 +800,11 @@ class Exec:
         return z3.If(i < 0, 0, z3.If(i > n, n, i))
 
     def ev_JoinedStr(self, e, st):
+        hook = getattr(self.unit, 'on_fstring', None)
+        if hook:
+            r = hook(self, st, e)
+            if r is not None:
+                return r
         # f-strings are only used as messages: opaque string term (contents dropped, listed in evidence)
         self.note_ignored(e, 'f-string contents (kept as opaque string)')
         return [('ok', st, fresh('fstr', z3.StringSort()))]
